@@ -301,6 +301,25 @@ func runC41(r *Report) {
 	r.Extra["wrappers"] = nWrap
 	r.Extra["wrappers_exactly_one_command"] = nOne
 
+	// R41c: methods that run the queue must be declared on TxPipeline itself (method promotion is
+	// not virtual dispatch: a promoted Pipelined would call Pipeline.Exec and skip MULTI/EXEC)
+	for _, fn := range p.Funcs(compatPkg + ".(*Pipeline).") {
+		if fn.Parent() != nil || len(CallSites(fn, compatPkg+".(*Pipeline).Exec")) == 0 {
+			continue
+		}
+		tx := p.Fn(compatPkg + ".(*TxPipeline)." + fn.Name())
+		ok := tx != nil && tx.Blocks != nil && len(CallSites(tx, compatPkg+".(*TxPipeline).Exec")) >= 1
+		r.Ob("R41c", fn, "tx-overrides:"+fn.Name(), fn.Pos(), ok, "Pipeline."+fn.Name()+" runs the queue through Exec; TxPipeline must declare its own "+fn.Name()+" calling TxPipeline.Exec, otherwise the promoted method sends the batch without MULTI/EXEC and WATCH aborts are never reported")
+	}
+	for _, name := range []string{"TxPipelined"} {
+		if tx := p.Fn(compatPkg + ".(*TxPipeline)." + name); tx != nil {
+			reach := len(CallSites(tx, compatPkg+".(*TxPipeline).Exec")) + len(CallSites(tx, compatPkg+".(*TxPipeline).Pipelined"))
+			r.Ob("R41c", tx, "tx-closure-form-runs-transaction", tx.Pos(), reach >= 1, "TxPipeline."+name+" runs the transactional Exec")
+		} else {
+			r.Ob("R41c", nil, "tx-closure-form-runs-transaction", 0, false, "TxPipeline."+name+" is not declared on TxPipeline (promoted from Pipeline: no MULTI/EXEC)")
+		}
+	}
+
 	// R41c Exec mapping
 	for _, typ := range []string{"Pipeline", "TxPipeline"} {
 		fn := r.FnAnchor("R41c", compatPkg+".(*"+typ+").Exec")
